@@ -105,6 +105,11 @@ STATEMENTS = [
     "try:\n    q = 1\nfinally:\n    q = 2", "import os", "from os import path", "import os as o, sys", "global q", "match q:\n    case 1:\n        pass", "n: int = 5", "a1 = a2 = 3", "y[0] = 1", "led.pin = 1",
     "*a3, a4 = 1, 2, 3", "print(\"x\")", "pass", "...", "\"docstring\"", "x = [1, 2][0]", "x = {1: 2}", "x = {1, 2}", "x = (1, 2)", "x = 1 if q else 2", "x = not q", "x = -q", "x = q @ q", "x = q is None", "x = q in y",
     "x = 1 < q < 3", "x = y[1:2]", "x = f\"{q!r:>10}\"", "x = b\"bytes\"", "x = 1j", "x = None", "x = ...", "led.nosuch()", "nosuch.toggle()", "continue", "break", "return 5", "x = q if q else led", "q: int",
+    # argument unpacking in every kind of call, as a statement and inside expressions
+    "x = digital_read(3, **opts)", "x = analog_read(*args)", "pin_mode(**kw)", "digital_write(3, **kw)", "analog_write(*args, **kw)", "led.blink(**kw)", "led.blink(*args)", "sleep(*args)", "mon.write(*args)",
+    "rgb.on(**{\"red\": 10})", "x = fn0(*args)", "x = fn0(**kw)", "if digital_read(3, **opts):\n    q = 1", "while analog_read(1, **opts) > 3:\n    q = 1", "sleep(analog_read(1, **opts))", "led.set_brightness(analog_read(*args))",
+    "x = [digital_read(2, **opts)]", "mon.write(f\"{digital_read(2, **opts)}\")", "x = digital_read(3, nosuch=1)", "x = digital_read(pin=3, pin2=4)", "x = analog_read(3, **opts, **kw)", "x = digital_read(*args, pin=3, **kw)",
+    "lcd.line(0, \"target(COM9)\")", "mon.write(\"target('COM9')\")", "x = \"target(COM9)\"", "# target(\"COM9\")", "port = target(\"COM9\")",
     "for i in y:\n    q = i", "for i, j in [(1, 2)]:\n    q = i", "while q < 3:\n    q += 1\nelse:\n    q = 0", "x = (yield)", "x = await q", "nonlocal q", "x = q.real", "x = str(q).upper()", "x = \"a\" \"b\"",
 ]
 SCOPES = [
@@ -182,6 +187,17 @@ def gen(tier: str) -> Iterator[dict]:
         "nested_abs": "x = " + "abs(" * 60 + "q" + ")" * 60 + "\n",
         "nested_fstr": "s9 = " + "f\"{" * 1 + "q" + "}\"" * 1 + "\n" + "".join(f"s{10 + i} = f\"{{s{9 + i}}}{{s{9 + i}}}\"\n" for i in range(30)),
         "nested_index": "x = " + "y[" * 40 + "0" + "]" * 40 + "\n",
+        # long concatenations / sums: every operand is rendered once
+        "concat_names": "s = str(q)\nmon.write(" + " + ".join(["s", "\"1\""] * 30) + ")\n",
+        "concat_literals": "s = str(q)\nx = " + " + ".join(["\"ab\""] * 60) + " + s\n",
+        "concat_fstrings": "s = str(q)\nx = " + " + ".join(["f\"{q}\"", "s"] * 25) + "\n",
+        "concat_calls": "def nm(v):\n    return str(v)\nx = " + " + ".join(["nm(q)", "\"-\""] * 25) + "\n",
+        "sum_names": "x = " + " + ".join(["q", "2"] * 150) + "\n",
+        "sum_floats": "g = q * 0.5\nx = " + " + ".join(["g", "q", "1.5"] * 80) + "\n",
+        "cmp_chain_names": "x = " + " < ".join(["q"] * 60) + "\n",
+        "and_chain_values": "x = " + " and ".join(["q", "2"] * 40) + "\n",
+        "or_chain_values": "x = " + " or ".join(["q", "0"] * 40) + "\n",
+        "ifexp_chain": "x = " + " ".join(["1 if q > %d else" % i for i in range(60)]) + " 0\n",
         "nested_call": "def idf(v):\n    return v\nx = " + "idf(" * 60 + "q" + ")" * 60 + "\n",
     }
     for name, body in growth.items():
